@@ -80,7 +80,7 @@ def gen_case(run_seed: int, tier: str, index: int = 0) -> dict:
         n_nodes=r.choice([2, 4, 6, 9, 14]), n_inputs=r.choice([0, 1, 2, 3]), n_inits=r.choice([0, 1, 2, 4]), n_outputs=r.choice([1, 2, 3]),
         n_functions=r.choice([0, 1, 2]), depth=r.choice([0, 1, 2]), typed=r.random() < 0.8, p_if=r.choice([0.1, 0.3]), p_dup=r.choice([0.2, 0.5]),
         p_const=r.choice([0.1, 0.3]), p_unused=r.choice([0.1, 0.4]), metadata=r.random() < 0.5, big_init=r.random() < 0.4, dup_inits=r.random() < 0.4,
-        unused_function=r.random() < 0.3, init_as_input=r.choice([0.0, 0.3, 1.0]), name_noise=r.choice([0.0, 0.0, 0.3]), unsorted=r.random() < 0.25, name_style=r.choice([0, 0, 1]),
+        unused_function=r.random() < 0.3, init_as_input=r.choice([0.0, 0.3, 1.0]), name_noise=r.choice([0.0, 0.0, 0.3]), unsorted=r.random() < 0.25, name_style=r.choice([0, 0, 1]), func_name_overlap=r.choice([0.0, 0.0, 0.5, 1.0]),
         lazy_failing_init=r.random() < 0.15, annot_noise=r.choice([0.0, 0.0, 0.3, 0.6]),
     )  # fmt: skip
     names = list(PASSES)
@@ -207,6 +207,42 @@ def _all_graphs(model):
     return out
 
 
+def _duplicate_value_names(model, require_all_named: bool = False) -> list:
+    """Names carried by two different values defined in the same graph (inputs, initializers, node outputs).
+
+    With require_all_named, a model holding any unnamed value reports ["unnamed"]: such a model is not in a
+    serializable state to begin with, and name generation for it is C15's subject, not a pass's."""
+    out = []
+    if require_all_named:
+        for g in _all_graphs(model):
+            for v in list(g.inputs) + list(g.outputs) + [o for n in g for o in n.outputs] + [i for n in g for i in n.inputs if i is not None]:
+                if not v.name:
+                    return [("?", "unnamed")]
+        # ... a graph listing one value twice among its outputs already serializes a repeated output name
+        for g in _all_graphs(model):
+            if len({id(v) for v in g.outputs}) != len(g.outputs):
+                return [(g.name, "repeated-output")]
+        # ... and so does a model in which two values of one top-level graph / function tree share a name across
+        # scopes (shadowing): rewrites may legitimately move such values into one scope
+        for top in [model.graph] + [f.graph for f in model.functions.values()]:
+            seen_tree: dict = {}
+            graphs_ = [top] + [sg for n in top.all_nodes() for sg in _subgraphs(n)]
+            for g in graphs_:
+                for v in list(g.inputs) + (list(g.initializers.values()) if hasattr(g, "initializers") else []) + [o for n in g for o in n.outputs]:
+                    if v.name in seen_tree and seen_tree[v.name] is not v:
+                        return [(g.name, "shadowed:" + v.name)]
+                    seen_tree[v.name] = v
+    for g in _all_graphs(model):
+        seen: dict = {}
+        vals = list(g.inputs) + (list(g.initializers.values()) if hasattr(g, "initializers") else []) + [o for n in g for o in n.outputs]
+        for v in vals:
+            if v.name:
+                if v.name in seen and seen[v.name] is not v:
+                    out.append((g.name, v.name))
+                seen[v.name] = v
+    return out
+
+
 def _has_definition(v) -> bool:
     return v.producer() is not None or v.is_graph_input() or v.is_initializer()
 
@@ -280,6 +316,7 @@ def run_case(case: dict) -> dict:
             proto_before = _proto_bytes(model)
             sorted_before = is_sorted(model)
             defined_before = _defined_outputs(model)
+            dups_before = _duplicate_value_names(model, require_all_named=True)
             bound = _size_bound(model)
             boundary.armed = step.get("fault")
             fired0 = boundary.fired
@@ -320,6 +357,13 @@ def run_case(case: dict) -> dict:
                     for v in g.outputs:
                         if v is not None and id(v) in defined_before and not _has_definition(v) and viol is None:
                             viol = ("output-lost-its-definition", f"step {si} {name}/{mode} ({out}): output {v.name!r} of graph {g.name!r} was produced by a node (or was an input/initializer) before the pass and is defined nowhere afterwards", f"output-lost-its-definition|{name}")
+            # ---- names needed for serialization: a pass never makes two values of one graph share a name
+            if viol is None and not dups_before:
+                for t in targets:
+                    dups = _duplicate_value_names(t)
+                    if dups:
+                        viol = ("pass-created-duplicate-value-names", f"step {si} {name}/{mode} ({out}): every value name was unique within its graph before the pass; afterwards graph {dups[0][0]!r} defines {dups[0][1]!r} twice (such a proto is refused on load)", f"pass-created-duplicate-value-names|{name}")
+                        break
             # ---- the infrastructure's own contract check (declared in-place / functional) never fires for built-in passes
             e_ = raised
             while e_ is not None and viol is None:
